@@ -618,7 +618,7 @@ func ruleGuardedBy(r *Run) {
 func (r *Run) checkOwnerConfined(name, why string, as []fieldAccess) {
 	for _, a := range as {
 		ok := a.Base == "recv" || strings.HasPrefix(a.Base, "recv.currentParticipant") || strings.HasPrefix(a.Base, "&lit:") ||
-			a.Base == "param:participant" && false
+			false
 		// module cleanup walks the leaver's own ids through the module's own participant
 		if strings.HasPrefix(a.Base, "recv.currentParticipant") {
 			ok = true
